@@ -751,14 +751,16 @@ def main():
     if args.tier == 'quick':
         # fetch accounting depends on the prefix class and (for DD/FD) on whether the opcode uses the index register, not on the
         # individual opcode: the quick tier takes every eighth slot of every table; thorough takes all
-        chosen = [sl for k, sl in enumerate(slots) if k % 8 == 0 and sl not in heavy]
+        quick_ixcb = (0x06, 0x40, 0x46, 0x86, 0xC6)       # the register-copy forms of DDCB/FDCB take 2-3 minutes each
+        light = lambda sl: sl not in heavy and (sl[0] not in ('DDCB', 'FDCB') or sl[1] in quick_ixcb)
+        chosen = [sl for k, sl in enumerate(slots) if (k % 8 == 0 or (sl[0] in ('DDCB', 'FDCB') and sl[1] in quick_ixcb)) and light(sl)]
     else:
         chosen = slots
     items = [('fetch', t, op, 0) for t, op in chosen]
     special = [HALT_SLOT, EI_SLOT] + list(LDAIR) + [('main', 0x00), ('main', 0xF3), ('ED', 0x4D), ('DD', 0x76), ('FD', 0xFB), ('ED', 0x47)]
     for fl in (1, 2, 3):
         items += [('fetch', t, op, fl) for t, op in (special if args.tier == 'quick' else slots)]
-    csel = [sl for k, sl in enumerate(slots) if (k % 16 == 0 or sl in special) and sl not in heavy] if args.tier == 'quick' else slots
+    csel = [sl for k, sl in enumerate(slots) if (k % 16 == 0 or sl in special or (sl[0] in ('DDCB', 'FDCB') and sl[1] in quick_ixcb)) and light(sl)] if args.tier == 'quick' else slots
     items += [('cframe', t, op) for t, op in csel]
     for stype in ('z80', 'szx'):
         for nframes, first in ((1, 0), (3, 0), (2, 2)) if args.tier == 'quick' else ((1, 0), (3, 0), (2, 2), (5, 1), (8, 0)):
